@@ -636,7 +636,8 @@ def gen_types(seed, tier, start, quick=300, thorough=8000):
 
 # ---------------------------------------------------------------- site properties (C01-C05, C11)
 def gen_sites(seed, tier, start, quick=500, thorough=12000):
-    cs = gen_cases.gen_site_cases(seed, quick if tier == "quick" else thorough, start)
+    cs = gen_cases.gen_matrix_cases(start)
+    cs = cs + gen_cases.gen_site_cases(seed, quick if tier == "quick" else thorough, start + len(cs))
     return cs + gen_modules(seed, tier, start + len(cs), 120, 3000)
 
 
